@@ -4,6 +4,6 @@ namespace OnosVerif.Props.C20
 open OnosVerif.V3
 
 /-- placeholder -/
-theorem C20_placeholder : (initSys true).txs = [] := rfl
+theorem C20_placeholder : (initSys 1).txs = [] := rfl
 
 end OnosVerif.Props.C20
